@@ -12,7 +12,7 @@
 (***************************************************************************)
 EXTENDS Naturals, Sequences, FiniteSets, TLC, Json
 
-VARIABLES orig, files, viol, l
+VARIABLES orig, files, mult, exact, viol, l
 
 P == INSTANCE CompactionProp
 
@@ -26,7 +26,7 @@ TraceInit == P!PInit /\ viol = <<0, 0>> /\ l = 1 /\ TLCSet(1, 0)
 IsEvent(e) == l <= Len(Trace) /\ Trace[l].ev = e /\ l' = l + 1
 Flag(code) == viol' = IF viol[1] = 0 THEN <<code, l>> ELSE viol
 
-TStart == IsEvent("start") /\ P!Start(Fn(Trace[l].rows)) /\ viol' = <<0, 0>>
+TStart == IsEvent("start") /\ P!Start(Fn(Trace[l].rows), Fn(Trace[l].mult), Trace[l].exact) /\ viol' = <<0, 0>>
 
 TPut == IsEvent("put") /\ P!Put(Trace[l].f, Trace[l].vis, Fn(Trace[l].rows)) /\ UNCHANGED viol
 
@@ -34,10 +34,10 @@ TDel == /\ IsEvent("del")
         /\ IF Trace[l].f \in DOMAIN files
              THEN /\ P!Del(Trace[l].f)
                   /\ IF P!DeleteSafe(Trace[l].f) THEN UNCHANGED viol ELSE Flag(1)
-             ELSE UNCHANGED <<orig, files, viol>>
+             ELSE UNCHANGED <<orig, files, mult, exact, viol>>
 
 TCycle == /\ IsEvent("cycle")
-          /\ UNCHANGED <<orig, files>>
+          /\ UNCHANGED <<orig, files, mult, exact>>
           /\ LET scan == Fn(Trace[l].scan) IN
              IF ~Trace[l].clean THEN UNCHANGED viol
              ELSE IF ~P!OnlyOriginal(scan) \/ Len(Trace[l].altered) > 0 THEN Flag(4)
@@ -46,14 +46,14 @@ TCycle == /\ IsEvent("cycle")
              ELSE UNCHANGED viol
 
 \* manifest writes/deletes, kills, cycle starts: part of the record, no effect on the observable state
-TAux == IsEvent("aux") /\ UNCHANGED <<orig, files, viol>>
+TAux == IsEvent("aux") /\ UNCHANGED <<orig, files, mult, exact, viol>>
 
 TEnd == /\ IsEvent("end")
         /\ PrintT(<<"VERDICT", Trace[l].sc, viol[1], viol[2]>>)
-        /\ orig' = P!EmptyFn /\ files' = P!EmptyFn /\ viol' = <<0, 0>>
+        /\ orig' = P!EmptyFn /\ files' = P!EmptyFn /\ mult' = P!EmptyFn /\ exact' = FALSE /\ viol' = <<0, 0>>
 
 TraceNext == TStart \/ TPut \/ TDel \/ TCycle \/ TAux \/ TEnd
-TraceSpec == TraceInit /\ [][TraceNext]_<<orig, files, viol, l>>
+TraceSpec == TraceInit /\ [][TraceNext]_<<orig, files, mult, exact, viol, l>>
 
 HW == TLCSet(1, IF l > TLCGet(1) THEN l ELSE TLCGet(1))
 TraceAccepted == IF TLCGet(1) = Len(Trace) + 1 THEN TRUE
